@@ -182,4 +182,28 @@ PROPS = {
         rule='each of the four policies x every external transition (into/out of the submachine, inside orthogonal regions) from every reachable configuration x guard valuations, '
              'observed from every guard / exit / action / entry position',
     ),
+    'C15': dict(
+        level='model_checking', design_ref='5/C15', custom='copy', oracle=None, engine='copy-differential',
+        technique='exhaustive enumeration of copy points x copy/move operation x interleaved continuation pairs on the real back-ends; differential against the original rebuilt by replay; callbacks attributed to machine objects by address',
+        quick=[dict(zoo='entry', cfgs=ALL, pre_ops=['start', 'pe:1', 'pe:2', 'pe:4', 'pe:5', 'pe:7', 'eq:5', 'eq:1'], cont_ops=['pe:1', 'pe:5', 'pe:6', 'xq'], cont_len=2, qbound=1, guards=1),
+               dict(zoo='defer', cfgs=ALL, pre_ops=['start', 'pe:1', 'pe:3', 'eq:3'], cont_ops=['pe:3', 'pe:1', 'xq'], cont_len=2, qbound=1, guards=0),
+               dict(zoo='histS', cfgs=['b', 'b11', 'm', 'mc'], pre_ops=['start', 'pe:1', 'pe:3', 'pe:4', 'pe:6'], cont_ops=['pe:2', 'pe:3', 'pe:9'], cont_len=2, qbound=1, guards=0)],
+        thorough=[dict(zoo='entry', cfgs=ALL, pre_ops=['start', 'pe:1', 'pe:2', 'pe:3', 'pe:4', 'pe:5', 'pe:7', 'eq:5', 'eq:1', 'eq:6'], cont_ops=['pe:1', 'pe:5', 'pe:6', 'pe:7', 'eq:5', 'xq'], cont_len=3, qbound=2, guards=1),
+                  dict(zoo='defer', cfgs=ALL, pre_ops=['start', 'pe:1', 'pe:2', 'pe:3', 'eq:3', 'eq:1'], cont_ops=['pe:3', 'pe:1', 'pe:4', 'xq', 'xs'], cont_len=3, qbound=2, guards=1),
+                  dict(zoo='histS', cfgs=ALL, pre_ops=['start', 'pe:1', 'pe:3', 'pe:4', 'pe:5', 'pe:6'], cont_ops=['pe:2', 'pe:3', 'pe:9', 'pe:8'], cont_len=3, qbound=1, guards=1),
+                  dict(zoo='hier2', cfgs=ALL, pre_ops=['start', 'pe:1', 'pe:3', 'eq:1'], cont_ops=['pe:1', 'pe:2', 'xq'], cont_len=2, qbound=1, guards=1)],
+        rule='every reachable configuration (with queued / deferred events pending) as copy point x {copy-construct from const&, copy-assign, backmp11: move-construct, move-assign} x '
+             'every interleaving of continuation operations on original and copy up to the stated length x guard answers; non-trivial = a continuation step',
+    ),
+    'C16': dict(
+        level='model_checking', design_ref='5/C16', custom='copy', oracle=None, engine='copy-differential',
+        technique='exhaustive enumeration of save points x archive format x continuations on back/back11; differential against the original rebuilt by replay; do_serialize data compared state by state',
+        quick=[dict(zoo='histS', cfgs=['b', 'bc', 'b11'], serialize=True, pre_ops=['start', 'pe:1', 'pe:3', 'pe:4', 'pe:5', 'pe:6', 'pe:8'], cont_ops=['pe:2', 'pe:3', 'pe:9', 'pe:4'], cont_len=2, qbound=1, guards=1),
+               dict(zoo='entry', cfgs=['b', 'b11'], serialize=True, pre_ops=['start', 'pe:1', 'pe:2', 'pe:4', 'pe:5', 'pe:7'], cont_ops=['pe:1', 'pe:5', 'pe:6'], cont_len=2, qbound=1, guards=1),
+               dict(zoo='hier2', cfgs=['b', 'bq'], serialize=True, pre_ops=['start', 'pe:1', 'pe:2', 'pe:3'], cont_ops=['pe:1', 'pe:2', 'pe:3'], cont_len=2, qbound=1, guards=1)],
+        thorough=[dict(zoo=z, cfgs=['b', 'bc', 'bq', 'b11'], serialize=True, pre_ops=pe_all(z)[:1] + pe_all(z)[2:], cont_ops=pe_all(z)[2:], cont_len=3, qbound=1, guards=1)
+                  for z in ('histN', 'histA', 'histS', 'entry', 'hier2', 'ortho')],
+        rule='every reachable configuration with empty queues as save point x {text, binary archive} x every continuation sequence up to the stated length x guard answers, '
+             'on back (3 configurations) and back11; non-trivial = a continuation step on the loaded machine',
+    ),
 }
